@@ -366,8 +366,8 @@ Qed.
 Lemma init_pinv : forall W, PInv None (init_state W).
 Proof. intros W s _ Hl. cbn in Hl. discriminate. Qed.
 
-Lemma restart_pinv : forall st, PInv None (restart_state st).
-Proof. intros st s _ Hl. cbn in Hl. discriminate. Qed.
+Lemma restart_pinv : forall W st, PInv None (restart_state W st).
+Proof. intros W st s _ Hl. cbn in Hl. discriminate. Qed.
 
 Theorem jbuild_no_pending : forall W o roots g,
   jbuild W o roots = Some g -> NoPending (jg_slots g).
@@ -378,9 +378,9 @@ Proof.
   destruct (resolve_pending (jfuel W) W o (load_roots W (init_state W) roots)) as [st|st|]; [| |discriminate].
   - intro E. inversion E; subst. cbn [jg_slots finish]. destruct H1 as [Hi Hp].
     apply content_loads_nopending. apply done_nopending; assumption.
-  - pose proof (resolve_pending_pinv W o (jfuel W) (load_roots W (restart_state st) roots)
-                  (load_roots_pinv W None roots _ (restart_pinv st))) as H2.
-    destruct (resolve_pending (jfuel W) W o (load_roots W (restart_state st) roots)) as [st2|st2|]; try discriminate.
+  - pose proof (resolve_pending_pinv W o (jfuel W) (load_roots W (restart_state W st) roots)
+                  (load_roots_pinv W None roots _ (restart_pinv W st))) as H2.
+    destruct (resolve_pending (jfuel W) W o (load_roots W (restart_state W st) roots)) as [st2|st2|]; try discriminate.
     intro E. inversion E; subst. cbn [jg_slots finish]. destruct H2 as [Hi Hp].
     apply content_loads_nopending. apply done_nopending; assumption.
 Qed.
@@ -1013,7 +1013,7 @@ Proof.
   - intros v c [].
 Qed.
 
-Lemma restart_jinv : forall st, JInv W st -> JInv W (restart_state st).
+Lemma restart_jinv : forall st, JInv W st -> JInv W (restart_state W st).
 Proof.
   intros st [A B C D E F G K]. constructor; cbn.
   - intros; discriminate.
@@ -1049,9 +1049,9 @@ Proof.
                 (load_roots_jinv roots _ init_jinv)) as H1.
   destruct (resolve_pending (jfuel W) W o (load_roots W (init_state W) roots)) as [st|st|]; [| |discriminate].
   - intro E. inversion E; subst. apply Fin. exact H1.
-  - pose proof (resolve_pending_jinv o (jfuel W) (load_roots W (restart_state st) roots)
+  - pose proof (resolve_pending_jinv o (jfuel W) (load_roots W (restart_state W st) roots)
                   (load_roots_jinv roots _ (restart_jinv st H1))) as H2.
-    destruct (resolve_pending (jfuel W) W o (load_roots W (restart_state st) roots)) as [st2|st2|]; try discriminate.
+    destruct (resolve_pending (jfuel W) W o (load_roots W (restart_state W st) roots)) as [st2|st2|]; try discriminate.
     intro E. inversion E; subst. apply Fin. exact H2.
 Qed.
 End B2.
